@@ -239,8 +239,9 @@ func (k Keeper) UpdateLPRewards(ctx sdk.Context) error {
 		if pool.EnableEdenRewards {
 			newEdenAllocatedForPool = poolShareEdenEnable.MulInt(lpsEdenAmount)
 			newEdenAllocatedForPool = math.LegacyMinDec(newEdenAllocatedForPool, poolMaxEdenAmount)
-			if newEdenAllocatedForPool.IsPositive() {
-				err = k.commitmentKeeper.MintCoins(ctx, types.ModuleName, sdk.Coins{sdk.NewCoin(ptypes.Eden, newEdenAllocatedForPool.TruncateInt())})
+			edenToMint := newEdenAllocatedForPool.TruncateInt()
+			if edenToMint.IsPositive() {
+				err = k.commitmentKeeper.MintCoins(ctx, types.ModuleName, sdk.Coins{sdk.NewCoin(ptypes.Eden, edenToMint)})
 				if err != nil {
 					return err
 				}
